@@ -11,6 +11,7 @@ import (
 	"sort"
 	"strings"
 	"sync"
+	"sync/atomic"
 	"time"
 
 	"verifharness/internal/gen"
@@ -51,7 +52,7 @@ type sharedObj struct {
 }
 
 var c17Ops = map[string][]string{
-	"item":    {"String", "ToBytes", "Variables", "Size", "Fill/shared-map", "Fill/private-map", "Expand"},
+	"item":    {"String", "ToBytes", "Variables", "Size", "Fill/shared-map", "Fill/private-map", "Expand", "WrapInLists"},
 	"data":    {"String", "ToBytes", "Variables", "Header", "SystemBytes", "Fill/shared-map", "SetWaitBit", "SetSession", "Accessors"},
 	"control": {"Type", "ToBytes", "Response"},
 	"bytes":   {"hsms.Parse"},
@@ -94,6 +95,13 @@ func doOp(o *sharedObj, op string) (res string) {
 		case "Expand":
 			n := o.item.FillVariables(o.counts)
 			return real.Str(n) + "|" + strings.Join(n.Variables(), ",")
+		case "WrapInLists":
+			// the shared item becomes the first element of new lists built by the caller (user-built sharing of sub-items)
+			tag := fmt.Sprintf("w%d", wrapSeq())
+			p1 := ast.NewListNode(o.item, tag+"a", ast.NewUintNode(1, tag+"b"))
+			p2 := ast.NewListNode(ast.NewListNode(o.item), tag+"c")
+			out := strings.Join(p1.Variables(), ",") + "|" + strings.Join(p2.Variables(), ",") + "|" + real.Str(p1)
+			return strings.ReplaceAll(out, tag, "#")
 		}
 	case "data":
 		switch op {
@@ -319,6 +327,12 @@ func renameVars(it *ref.Item, tag string) {
 		}
 	}
 }
+
+var wrapCounter uint64
+
+// wrapSeq hands out process-unique numbers for fresh variable names. It is an atomic (a synchronisation point
+// between goroutines), so it is used by one rare operation only.
+func wrapSeq() uint64 { return atomic.AddUint64(&wrapCounter, 1) }
 
 var canaryCounter int
 
